@@ -186,6 +186,16 @@ func TestWireID(t *testing.T) {
 				res.Violate("C17", "monitor", "id|unchanged|"+c.Name, fmt.Sprintf("changing '%s' leaves the channel id unchanged (%x); %s", c.Name, idb, desc()), rp)
 			}
 		}
+		// the id is a function of the fields, not of how the value came about: a copy of the base parameters with the
+		// variant's fields written into it has the variant's id
+		if len(va.parts) > 0 && va.app != nil && va.nonce != nil {
+			cp := *pb
+			cp.ChallengeDuration, cp.Parts, cp.App, cp.Nonce, cp.LedgerChannel, cp.VirtualChannel = va.cd, va.parts, va.app, va.nonce, va.ledger, va.virt
+			var rid channel.ID
+			if e, pan := guard(func() (e error) { rid, e = channel.CalcID(&cp); return }); pan == "" && e == nil && rid != idv {
+				res.Violate("C17", "monitor", "id|copy|"+c.Name, fmt.Sprintf("CalcID of a copy of the base parameters with the variant's fields is %x, the id of the variant is %x; %s", rid, idv, desc()), rp)
+			}
+		}
 		if pv2, err, _ := va.newParams(); err != nil || pv2.ID() != idv {
 			res.Violate("C17", "monitor", "id|nondeterministic", "constructing the same parameters twice yields different ids; "+desc(), rp)
 		}
